@@ -63,12 +63,12 @@ def _menu(ctx):
         ('write_preamble:bad-line_endings', 'write_preamble', ('x',), {'line_endings': 'mac'}, False),
         ('write_preamble:bad-mimetype', 'write_preamble', ('x',), {'mimetype': 'text/html'}, False),
         ('write_preamble:indent-str', 'write_preamble', ('x',), {'indent': '2'}, False),
-        ('write_preamble:empty-mimetype', 'write_preamble', ('x',), {'mimetype': ''}, False),
-        ('write_preamble:empty-line_endings', 'write_preamble', ('x',), {'line_endings': ''}, False),
-        ('write_meta:empty-format', 'write_meta', ({'a': 1},), {'meta_format': ''}, False),
-        ('write_meta:none-format', 'write_meta', ({'a': 1},), {'meta_format': None}, False),
-        ('write_diff:empty-type', 'write_diff', (b'x',), {'diff_type': ''}, False),
-        ('write_diff:empty-line_endings', 'write_diff', (b'x',), {'line_endings': ''}, False),
+        ('write_preamble:empty-mimetype', 'write_preamble', ('x',), {'mimetype': ''}, None),
+        ('write_preamble:empty-line_endings', 'write_preamble', ('x',), {'line_endings': ''}, None),
+        ('write_meta:empty-format', 'write_meta', ({'a': 1},), {'meta_format': ''}, None),
+        ('write_meta:none-format', 'write_meta', ({'a': 1},), {'meta_format': None}, None),
+        ('write_diff:empty-type', 'write_diff', (b'x',), {'diff_type': ''}, None),
+        ('write_diff:empty-line_endings', 'write_diff', (b'x',), {'line_endings': ''}, None),
         ('write_preamble:unknown-codec', 'write_preamble', ('x',), {'encoding': 'no-such-codec'}, False),
         ('write_preamble:symbolic-encoding-name', 'write_preamble', ('x',), {'encoding': name1}, None),
         ('write_meta', 'write_meta', ({'a': 1},), {}, True),
@@ -84,6 +84,34 @@ def _menu(ctx):
         ('write_diff:bad-line_endings', 'write_diff', (b'x',), {'line_endings': 'mac'}, False),
         ('write_diff:unknown-codec', 'write_diff', (b'x',), {'encoding': 'no-such-codec', 'line_endings': 'unix'}, False),
     ]
+
+
+CHOICES = {'mimetype': (b'text/plain', b'text/markdown'), 'line_endings': (b'unix', b'dos'), 'type': (b'text', b'binary'),
+           'format': (b'json',), 'version': (b'1.0',)}
+
+
+def header_conformant(appended):
+    """what an *accepted* call wrote starts with one header line of the specification's grammar whose options with a
+    closed set of values carry one of them (an accepted call with a value that cannot be represented -- e.g. an empty
+    string -- shows here, whatever the implementation calls 'valid').  Returns a condition (bool or z3)."""
+    import re
+    from harness.C11 import SPEC_LINE
+    from sx.regex import nfa_formula
+    a = lift(appended)
+    i = a.find(b'\n')
+    if i < 0:
+        return False
+    line = a.el[:i]
+    if all(isinstance(e, int) for e in line):
+        b = bytes(line)
+        if re.fullmatch(SPEC_LINE, b) is None:
+            return False
+        for key, allowed in CHOICES.items():
+            for m in re.finditer(rb'(?:: |, )' + key.encode() + rb'=([^,]*)', b):
+                if m.group(1) not in allowed:
+                    return False
+        return True
+    return nfa_formula(SPEC_LINE, line)
 
 
 def _snapshot(w):
@@ -138,6 +166,9 @@ def ob_step(ctx):
         props.append(('append-only', all(op[0] == 'write' and op[3] for op in ops) and len(ops) > 0))
         out = lift(st.value())
         props.append(('previous-output-untouched', mk_seq(out.el[:len(value_before)], bytes) == value_before))
+        if 'symbolic-encoding-name' not in label:
+            # (which codec-name spellings can stand in a header is C15's subject; here: the closed-choice options)
+            props.append(('accepted-call-wrote-malformed-header', header_conformant(mk_seq(out.el[len(value_before):], bytes))))
         # Inv_w afterwards
         depth = {'diffx': 1, '.change': 2, '..file': 3}.get(t, LEVEL[s] + 1)
         props.append(('Inv_w:stack-depth', len(w._stack) == depth + 1))
@@ -174,7 +205,8 @@ def ob_init(ctx):
     except Exception as e:
         raised = e
     if raised is None:
-        return verdict(ctx, [('accepted-invalid-arguments', not mode.endswith('-version')), ('append-only', st.append_only())],
+        return verdict(ctx, [('accepted-call-wrote-malformed-header', True if mode == 'symbolic-encoding-name' else header_conformant(st.value())),
+                             ('append-only', st.append_only())],
                        witness=wit, sample=lambda m: dict(wit(m), outcome='accepted'))
     return verdict(ctx, [('rejected-call-wrote-bytes', len(st.log) == 0)], witness=wit,
                    sample=lambda m: dict(wit(m), outcome=type(raised).__name__))
@@ -268,6 +300,7 @@ def ob_twin(ctx, K1, K2):
         seq.append(ctx.pick('after%d' % i, VALID_CALLS[:5]) + (True,))
     hist = []
     accepted = []
+    header_conds = []
 
     def wit(m):
         return {'call': 'twin', 'history': [[lb, fn, _concrete(m, a), _concrete(m, k), va] for lb, fn, a, k, va in seq],
@@ -278,6 +311,7 @@ def ob_twin(ctx, K1, K2):
             valid_args = None
         t = _section_of(lb, prev)
         n_log = len(st.log)
+        len_before = len(st.value())
         try:
             getattr(w, fn)(*a, **k)
             acc = True
@@ -298,6 +332,11 @@ def ob_twin(ctx, K1, K2):
         if acc:
             if not all(op[0] == 'write' and op[3] for op in st.log[n_log:]):
                 return viol('append-only', wit(ctx.model()))
+            hc = True if ('symbolic-encoding-name' in lb or tainted) else header_conformant(mk_seq(lift(st.value()).el[len_before:], bytes))
+            if hc is False:
+                return viol('accepted-call-wrote-malformed-header', wit(ctx.model()))
+            if hc is not True:
+                header_conds.append(hc)
             accepted.append((fn, a, k))
             prev = t
             if 'symbolic-encoding-name' in lb:
@@ -312,7 +351,8 @@ def ob_twin(ctx, K1, K2):
     except Exception as e:
         return viol('twin-rejects-accepted-call', wit(ctx.model()))
     from sx.core import seq_eq
-    return verdict(ctx, [('same-output-as-twin-without-rejected-calls', seq_eq(st.value(), st2.value()))], witness=wit,
+    return verdict(ctx, [('same-output-as-twin-without-rejected-calls', seq_eq(st.value(), st2.value()))] +
+                   [('accepted-call-wrote-malformed-header', c) for c in header_conds], witness=wit,
                    sample=lambda m: {'calls': [x[0] for x in seq], 'outcomes': list(hist)})
 
 
@@ -434,6 +474,9 @@ def replay(ob, label, w):
             if acc:
                 if not st.getvalue().startswith(before) or st.getvalue() == before:
                     return {'violated': True, 'signature': 'append-only', 'detail': repr(st.getvalue())}
+                if 'symbolic-encoding-name' not in lb and not tainted and header_conformant(st.getvalue()[len(before):]) is not True:
+                    return {'violated': True, 'signature': 'order:accepted-call-wrote-malformed-header',
+                            'detail': '%s(%r, %r) accepted and wrote %r' % (fn, a, k, st.getvalue()[len(before):][:120])}
                 accepted.append((fn, a, k))
                 prev = t
                 if 'symbolic-encoding-name' in lb:
@@ -459,7 +502,9 @@ def replay(ob, label, w):
                 return {'violated': True, 'signature': 'atomic:rejected-call-wrote-bytes',
                         'detail': 'DiffXWriter(%r) raised %s after writing %r' % (w['kwargs'], type(e).__name__, st.getvalue())}
             return {'violated': False}
-        return {'violated': 'version' in w['kwargs'] and w['kwargs']['version'] != '1.0', 'signature': 'order:accepted-invalid', 'detail': repr(w['kwargs'])}
+        bad = 'encoding' not in w['kwargs'] and header_conformant(st.getvalue()) is not True
+        return {'violated': bad, 'signature': 'order:accepted-call-wrote-malformed-header',
+                'detail': 'DiffXWriter(%r) wrote %r' % (w['kwargs'], st.getvalue()[:80])}
     # reach the pre-state through the public API
     s, chain = w['prev'], w['chain']
     st = io.BytesIO()
@@ -504,6 +549,9 @@ def replay(ob, label, w):
         return {'violated': True, 'signature': 'order:accepted-not-allowed', 'detail': '%s after %s accepted' % (w['fn'], s)}
     if not after.startswith(before) or after == before:
         return {'violated': True, 'signature': 'append-only', 'detail': repr(after)}
+    if 'symbolic-encoding-name' not in w['call'] and header_conformant(after[len(before):]) is not True:
+        return {'violated': True, 'signature': 'order:accepted-call-wrote-malformed-header',
+                'detail': '%s(%r, %r) accepted and wrote %r' % (w['fn'], w['args'], w['kwargs'], after[len(before):][:120])}
     if label == 'accepted-invalid-arguments':
         return {'violated': True, 'signature': 'order:accepted-invalid-arguments', 'detail': '%s(%r, %r)' % (w['fn'], w['args'], w['kwargs'])}
     return {'violated': False}
